@@ -127,14 +127,14 @@ B("c07-split-semicolon", ["C07", "C08"], NOTES, "for m, measure in enumerate(not
 # --------------------------------------------------------------------------- C08
 B("c08-fallback-in-loop", "C08", NOTES, "        # if there were no notes at all, write a blank measure\n        if last_player == -1:\n            push_measure()\n", "", "every exit")
 B("c08-rows-2q", "C08", NOTES, "            for _ in range(last_row + 1, q * 4):", "            for _ in range(last_row + 1, q * 2):", "4*q")
-B("c08-fill-from-last", "C08", NOTES, "                for _ in range(last_measure + 1, m):", "                for _ in range(last_measure, m):", "blanks are written for range")
-B("c08-last-measure-not-updated", "C08", NOTES, "                push_measure(list(measure))\n                last_measure = m\n", "                push_measure(list(measure))\n", "advanced")
+B("c08-fill-from-last", "C08", NOTES, "                for _ in range(last_measure + 1, m):", "                for _ in range(last_measure, m):", "per measure group")
+B("c08-last-measure-not-updated", "C08", NOTES, "                push_measure(list(measure))\n                last_measure = m\n", "                push_measure(list(measure))\n", "per measure group")
 B("c08-row-key-no-q", "C08", NOTES, "lambda note: int(note.beat % 4 * q)", "lambda note: int(note.beat % 4 * 4)", "row index")
 B("c08-lcm-product", "C08", NOTES, "q = reduce(lambda a, b: a * b // gcd(a, b), quantizations, 1)", "q = reduce(lambda a, b: max(a, b), quantizations, 1)", "least common multiple")
-B("c08-separator-mismatch", "C08", NOTES, '                    notedata.write(",\\n")\n                # account for any skipped measures', '                    notedata.write(";\\n")\n                # account for any skipped measures', "separator")
+B("c08-separator-mismatch", "C08", NOTES, '                    notedata.write(",\\n")\n                # account for any skipped measures', '                    notedata.write(";\\n")\n                # account for any skipped measures', "per measure group")
 B("c08-cell-type-only", "C08", NOTES, "                note_strings[note.column] = str(note)", "                note_strings[note.column] = str(note.note_type)", "column")
 B("c08-keysound-always", "C08", NOTES, "        if self.keysound_index is not None:\n            note_string +=", "        if self.keysound_index:\n            note_string +=", "keysound")
-B("c08-player-fill-missing-sep", "C08", NOTES, "                for _ in range(last_player + 1, p):\n                    push_measure()\n                    notedata.write(\"&\\n\")", "                for _ in range(last_player + 1, p):\n                    push_measure()", "separator")
+B("c08-player-fill-missing-sep", "C08", NOTES, "                for _ in range(last_player + 1, p):\n                    push_measure()\n                    notedata.write(\"&\\n\")", "                for _ in range(last_player + 1, p):\n                    push_measure()", "per player group")
 
 # --------------------------------------------------------------------------- C09
 B("c09-jumps-3", "C09", COUNT, "        same_beat_notes=same_beat_notes,\n        same_beat_minimum=2,", "        same_beat_notes=same_beat_notes,\n        same_beat_minimum=3,", "count_jumps")
@@ -249,7 +249,7 @@ B("c18-alias-when-both", "C18", PROP, "        if name not in self and alias and
 B("c18-getter-indexing", "C18", PROP, "        return self.get(_name_or_alias(self))", "        return self[_name_or_alias(self)]", "reading")
 B("c18-attr-key-mismatch", "C18", BASE, '    subtitletranslit = item_property("SUBTITLETRANSLIT")', '    subtitletranslit = item_property("SUBTITLETRANSLATION")', "subtitletranslit")
 B("c18-pop-allowed", "C18", SM, "    def pop(self, property, default=None):\n        \"\"\"Raises NotImplementedError.\"\"\"\n        raise NotImplementedError\n\n", "", "pop")
-B("c18-setitem-any-key", "C18", SM, "        if property.upper() not in SM_CHART_PROPERTIES:\n            raise KeyError\n        else:\n            return super().__setitem__(property, value)", "        return super().__setitem__(property, value)", "stores the six keys")
+B("c18-setitem-any-key", "C18", SM, "        if property.upper() not in SM_CHART_PROPERTIES:\n            raise KeyError\n        else:\n            return super().__setitem__(property, value)", "        return super().__setitem__(property, value)", "for the six keys")
 B("c18-eq-ignores-charts", "C18", BASE, "            and OrderedDict.__eq__(self, other)\n            and self.charts == other.charts", "            and OrderedDict.__eq__(self, other)", "equality")
 B("c18-eq-unordered", "C18", BASE, "            and OrderedDict.__eq__(self, other)", "            and dict.__eq__(self, other)", "equality")
 B("c18-smchart-eq-misses-meter", "C18", SM, "            and self.meter == other.meter\n", "", "six fields")
